@@ -64,8 +64,8 @@ int main(int argc, char** argv) {
              "distinct = FNV of case + multi-bunch output; trivial = Identity";
     R.sample_every = 50;
     const bool T = R.thorough();
-    std::vector<unsigned> ns = T ? std::vector<unsigned>{8, 12, 13} : std::vector<unsigned>{8};
-    std::vector<unsigned> nbs = T ? std::vector<unsigned>{2, 3} : std::vector<unsigned>{2};
+    std::vector<unsigned> ns = T ? std::vector<unsigned>{8, 12, 13, 16, 24} : std::vector<unsigned>{8};
+    std::vector<unsigned> nbs = T ? std::vector<unsigned>{2, 3, 4} : std::vector<unsigned>{2};
     for (unsigned n : ns) for (unsigned nb : nbs) for (int kind = 0; kind < NKIND; kind++) for (unsigned it = 1; it <= 4; it++)
     for (int var = 0; var < 4; var++) for (int dv = 0; dv < 2; dv++) {
         if (var == 3 && kind != KICKY) continue;   // var 3: rows of one bunch displaced beyond the grid (y-kick fields only)
@@ -84,7 +84,10 @@ int main(int argc, char** argv) {
             if (var == 3) { const float big[4] = {(float)(n / 2), n / 2 + 0.5f, (float)n, 3.f * n}; for (unsigned r = b; r < n; r += 3) fields[b][r] = big[(r + b) % 4]; }
         }
         std::vector<uint32_t> buckets; for (unsigned b = 0; b < nb; b++) buckets.push_back((nb - 1 - b) * (var == 2 ? 2 : 1));
-        const unsigned spacing = n + 3, N = (var == 0 ? 64 : var == 1 ? 60 : 111);
+        const unsigned spacing = n + 3;
+        unsigned need = 0; for (auto bk : buckets) need = std::max(need, bk * spacing + n);
+        // padded length: power of two / composite / odd, always long enough for the whole train
+        const unsigned N = (var % 3 == 0 ? 64 : var % 3 == 1 ? 60 : 111) + (need > 60 ? 2 * ((need - 59) / 2 + 1) : 0);
         set_size(n, nb);
         std::vector<float> multi, wake_multi;
         {
